@@ -140,6 +140,7 @@ def rule_k1(ctx, rule_id: str = "C12-K1") -> None:
     ctx.note("configuration read in the bypassed region: %s; excluded by rule: %s" % (sorted(cfg_attrs), {k: v for k, v in EXCLUDED.items() if k in read}))
     # what flows into the hash
     hashed: Set[str] = set()
+    stage_hashed: Set[str] = set()
     hash_calls = [c for c in calls(trycache) if isinstance(c.func, ast.Attribute) and c.func.attr == "get_hash_key"]
     ctx.require(hash_calls, "__try_cache no longer calls get_hash_key")
     batch_in = False
@@ -156,16 +157,25 @@ def rule_k1(ctx, rule_id: str = "C12-K1") -> None:
                         m = prog.lookup_method(cls, x.attr)
                         if m is not None and m.qualname not in seen_helpers:
                             seen_helpers.add(m.qualname)
-                            for r in [n for n in own_nodes(m.node) if isinstance(n, ast.Return) and n.value is not None]:
-                                for y in ast.walk(r.value):
-                                    if isinstance(y, ast.Attribute) and isinstance(y.value, ast.Name) and y.value.id == m.params[0]:
-                                        hashed.add(y.attr)
-                                # locals returned
-                                if isinstance(r.value, ast.Name):
-                                    for _, v, _i in assignments_to(m, r.value.id):
-                                        for y in ast.walk(v):
-                                            if isinstance(y, ast.Attribute) and isinstance(y.value, ast.Name) and y.value.id == m.params[0]:
-                                                hashed.add(y.attr)
+                            # everything the helper reads from the object can end up in what it returns: direct
+                            # returns, locals it builds up (`config[k] = self.x` under a condition), values of stage
+                            # objects (`self.rb_method.ban_atoms`, traced to the constructor parameter they hold)
+                            from ..values import Env as _Env
+
+                            henv = _Env(func=m, params={}, inst=ctx.balancer)
+                            for y in own_nodes(m.node):
+                                if isinstance(y, ast.Attribute) and isinstance(y.value, ast.Name) and y.value.id == m.params[0] and isinstance(y.ctx, ast.Load):
+                                    hashed.add(y.attr)
+                                    top = y
+                                    while isinstance(getattr(top, "_parent", None), ast.Attribute) and top._parent.value is top:
+                                        top = top._parent
+                                    gp = getattr(top, "_parent", None)
+                                    if isinstance(gp, ast.Call) and getattr(gp.func, "id", "") == "getattr" and gp.args and gp.args[0] is top:
+                                        top = gp  # getattr(self.stage, "name", default)
+                                    if top is not y:
+                                        for val in ctx.ev.eval(top, henv):
+                                            if val.kind == "sym" and isinstance(val.value, str):
+                                                stage_hashed.add(val.value.split(".", 1)[-1])
                     else:
                         hashed.add(x.attr)
                 elif isinstance(x, ast.Name) and x.id in trycache.params:
@@ -182,8 +192,10 @@ def rule_k1(ctx, rule_id: str = "C12-K1") -> None:
     ctx.instance(rule_id, "hash payload contains the batch rows", trycache.loc(hash_calls[0]), ok=batch_in)
     if not batch_in:
         ctx.finding(rule_id, "Balancer:cache-key:batch", trycache.loc(hash_calls[0]), "the batch rows do not flow into the cache key")
-    hashed_roots: Set[str] = set()
+    hashed_roots: Set[str] = set(stage_hashed)
     for a in hashed:
+        if a in stage_args:
+            continue  # a stage object as such is not a value; what is read from it is in stage_hashed
         hashed_roots.add(a)
         hashed_roots |= source.get(a, set())
     for attr, where in sorted(cfg_attrs.items()):
